@@ -153,7 +153,7 @@ int main(int argc, char **argv) {
     } }
   // ---- ECDSA volume: each provider must accept the other's signatures also when r or s is short (1/128 per signature)
   { int per = a.thorough() ? 2500 : 220;
-    for (auto &cell : cells) { const KeySpec &k = *KEYS[cell.first]; if (k.kind != K_EC) continue; int nn = k.bits == 521 ? per / 4 : per;
+    for (auto &cell : cells) { const KeySpec &k = *KEYS[cell.first]; if (k.kind != K_EC) continue; int nn = k.bits == 521 ? per * 2 : per;   // P-521: the top octet holds one bit, so a half that lacks TWO octets occurs once in 512 signatures - enough of them to see it many times
       for (int i = 0; i < nn && st.violations.empty(); i++) { int s = i & 1; std::string d, r = run_cross(cell.first, cell.second, s, s, 1 - s, 1000 + i * a.nworkers + a.worker + (int)a.seed * 1000000, &d); st.evaluations++; st.cls("ecdsa-cross-volume"); st.nontrivial_distinct();
         if (!r.empty()) st.violation("C12:" + r, "cross-provider use fails: " + d, d); } } }
   if (!st.violations.empty()) return finish();
